@@ -70,9 +70,9 @@ type Slicer struct {
 	w       *World
 	res     *Resolver
 	visited map[string]bool
-	stores  map[*types.Var][]*ssa.Store        // stores to a field anywhere in repo
+	stores  map[*types.Var][]*ssa.Store          // stores to a field anywhere in repo
 	wcalls  map[*types.Var][]ssa.CallInstruction // X.Write(v)-style writes to a field
-	withs   map[string][]ssa.CallInstruction    // wctx.WithX calls
+	withs   map[string][]ssa.CallInstruction     // wctx.WithX calls
 	budget  int
 }
 
